@@ -1102,7 +1102,7 @@ func VerifC04History() {
 	p := verifChoice("prefix", len(vcPrefixes))
 	k, kinds := 2, int(stInstall)+1
 	if verifTier() > 0 {
-		k = 3
+		k = 4
 	}
 	vcRun(vcPrefixes[p], k, kinds)
 }
